@@ -10,6 +10,7 @@
 #include "parsec/runtime.h"
 #include "parsec/execution_stream.h"
 #include "parsec/data_internal.h"
+#include "parsec/parsec_internal.h"
 #include "parsec/arena.h"
 #include "parsec/data_dist/matrix/matrix.h"
 #include "parsec/data_dist/matrix/two_dim_rectangle_cyclic.h"
@@ -38,6 +39,7 @@ static int *visits;           /* per tile, this rank */
 static void **ptrA, **ptrD;   /* expected tile pointers (local tiles) */
 static int *uplo_seen;        /* uplo argument handed to the operator */
 static volatile long n_wrong_ptr, n_out_of_range, n_invocations;
+static long n_skipped_empty;
 static volatile uint64_t thread_mask;
 static long tot_cases, tot_tiles, tot_visits, tot_nontrivial, tot_multi_thread_cases, tot_multi_owner_cases, tot_uplo_arg_unexpected;
 static long per_op[5], per_uplo[3];
@@ -100,8 +102,9 @@ static void gen_case(case_t *c, uint64_t seed, long idx, int opsel) {
     if (c->op == OP_MAP) {
         c->with_dest = vf_randn(&r, 2);
         /* recorded finding: the map taskpool never completes on a rank that owns no source tile.  The bulk workload gives
-         * every rank at least one tile; the driver runs the empty-rank shape as a separate probe under the stall rule. */
-        if (!full_weights) { if ((c->mt + c->kp - 1) / c->kp < c->P) c->mt = c->P * c->kp; if ((c->nt + c->kq - 1) / c->kq < c->Q) c->nt = c->Q * c->kq; }
+         * every rank at least one tile in nine cases of ten (down-weighted, not removed); the driver also runs the
+         * empty-rank shape as a separate probe. */
+        if (!full_weights && vf_chance(&r, 900)) { if ((c->mt + c->kp - 1) / c->kp < c->P) c->mt = c->P * c->kp; if ((c->nt + c->kq - 1) / c->kq < c->Q) c->nt = c->Q * c->kq; }
     }
     c->lm = c->mt * c->mb - vf_randn(&r, c->mb); c->ln = c->nt * c->nb - vf_randn(&r, c->nb);
     if (c->dist == D_SYM) c->ln = c->lm;
@@ -150,7 +153,14 @@ static void run_case(const case_t *c, int sample)
     } else {
         parsec_taskpool_t *tp = parsec_map_operator_New(A.tm, c->with_dest ? D.tm : NULL, map_op, (void *)c);
         if (!tp) viol(c, "returned-error", "parsec_map_operator_New returned NULL");
-        else {
+        else if (0 == tp->nb_tasks && 0 != tp->nb_pending_actions) {
+            /* State oracle instead of a hang: the taskpool holds a pending action that only the completion of its last
+             * local task releases, and it has no local task: once enqueued, parsec_context_wait can never return on this
+             * rank.  It is not enqueued (the other ranks run theirs, the operator makes no communication). */
+            viol(c, "never-completes:rank-without-source-tiles", "taskpool created with nb_tasks=0 and nb_pending_actions=%d: nothing can ever release the pending action, parsec_context_wait would not return", (int)tp->nb_pending_actions);
+            n_skipped_empty++;
+            parsec_taskpool_free(tp);
+        } else {
             parsec_context_add_taskpool(parsec, tp); parsec_context_start(parsec); parsec_context_wait(parsec);
             parsec_taskpool_free(tp);
         }
@@ -244,7 +254,9 @@ void __assert_fail(const char *assertion, const char *file, unsigned int line, c
 
 int main(int argc, char **argv)
 {
+    vf_heartbeat_start();
     int prov; MPI_Init_thread(&argc, &argv, MPI_THREAD_SERIALIZED, &prov);
+    VF_TICK();
     MPI_Comm_rank(MPI_COMM_WORLD, &rank); MPI_Comm_size(MPI_COMM_WORLD, &nranks);
     nthreads = (int)vf_arg_ll(argc, argv, "--threads", 2);
     long cases = vf_arg_ll(argc, argv, "--cases", 10), start = vf_arg_ll(argc, argv, "--start", 0);
@@ -254,9 +266,10 @@ int main(int argc, char **argv)
     int pargc = 1; char *pargv0[] = {argv[0], NULL}; char **pargv = pargv0;
     parsec = parsec_init(nthreads, &pargc, &pargv);
     if (!parsec) { fprintf(stderr, "parsec_init failed\n"); return 2; }
-    vf_heartbeat_start();
+    VF_TICK();
     case_t c;
     for (long k = start; k < cases; k++) {
+        VF_TICK();
         if (!strcmp(mode, "map_empty_rank")) {
             gen_case(&c, seed, k, OP_MAP); c.dist = D_BC; c.kp = c.kq = 1; c.ip = c.jq = 0; c.mt = 1; c.nt = 1 + (int)(k % 2); c.lm = c.mb; c.ln = c.nt * c.nb; c.P = 1; c.Q = nranks;
             snprintf(c.desc, sizeof c.desc, "op=map dist=2dbc tiles=%dx%d grid=%dx%d dest=%d ranks=%d threads=%d (fewer tiles than ranks) idx=%ld", c.mt, c.nt, c.P, c.Q, c.with_dest, nranks, nthreads, k);
